@@ -74,8 +74,16 @@ def _events(c, label, seq0):
             for (seq, meth, args, res) in log:
                 if seq > seq0:
                     ev.append((seq, "rng", meth, args, res, nm))
+                    if meth in ("random", "uniform") and not _scalar(res):
+                        # uniforms drawn in blocks: which of them a decision used cannot be read off the log
+                        c.block_uniforms = True
     ev.sort(key=lambda e: e[0])
     return ev
+
+
+def _scalar(x):
+    """A scalar draw (array draws are logged as arrays or ('ndarray', shape) summaries)."""
+    return isinstance(x, (int, float, np.floating, np.integer)) or (isinstance(x, np.ndarray) and x.ndim == 0)
 
 
 def _uniform_after(ev, k):
@@ -87,13 +95,13 @@ def _uniform_after(ev, k):
     for e in ev[k + 1:]:
         if e[1] == "post":
             break
-        if e[1] == "rng" and e[2] in ("random", "uniform") and np.ndim(e[4]) == 0:
+        if e[1] == "rng" and e[2] in ("random", "uniform") and _scalar(e[4]):
             out.append(float(e[4]))
             break
     for e in reversed(ev[:k]):
         if e[1] == "post":
             break
-        if e[1] == "rng" and e[2] in ("random", "uniform") and np.ndim(e[4]) == 0:
+        if e[1] == "rng" and e[2] in ("random", "uniform") and _scalar(e[4]):
             out.append(float(e[4]))
     return out
 
@@ -123,6 +131,10 @@ def _judge(V, stats, kind, accepted, delta, u, what, extra=0.0, scale=0.0):
             _viol(V, "A.decision", "%s: %s has log acceptance ratio %+.6g > 0 (probability 1) but was rejected" % (kind, what, la))
         return
     us = [u] if isinstance(u, float) else list(u or [])
+    if getattr(rctx.get(), "block_uniforms", False):
+        # only the rule that needs no uniform (an uphill move is accepted) was judged above
+        stats["warn_uninterpretable_block_uniforms"] += 1
+        return
     if not us:
         if accepted and la < -TIE:
             stats["warn_uninterpretable_no_uniform"] += 1
@@ -191,7 +203,7 @@ def refine_coordinatewise(V, stats, h, ev, w, kind):
                 for e in reversed(ev[:k]):
                     if e[1] == "post":
                         break
-                    if e[1] == "rng" and e[2] == "normal" and np.ndim(e[4]) == 0 and np.ndim(e[3][0]) == 0:
+                    if e[1] == "rng" and e[2] == "normal" and _scalar(e[4]) and _scalar(e[3][0]):
                         loc = float(e[3][0])
                         break
                 others = [float(py[j]) for j in range(d) if jp.size == 1 and j != jp[0]]
@@ -225,12 +237,12 @@ def refine_coordinatewise(V, stats, h, ev, w, kind):
             for e in reversed(ev[:k]):
                 if e[1] == "post":
                     break
-                if e[1] == "rng" and e[2] == "normal" and np.ndim(e[4]) == 0:
+                if e[1] == "rng" and e[2] == "normal" and _scalar(e[4]):
                     loc, scale = e[3][0], e[3][1]
-                    if dj.size == 1 and np.ndim(loc) == 0 and float(loc) != float(w[dj[0]]):
+                    if dj.size == 1 and _scalar(loc) and float(loc) != float(w[dj[0]]):
                         _viol(V, "A.proposal", "gibbs: proposal for parameter %d drawn about %r but the current value is %r "
                               "(proposal not centred on the current state)" % (dj[0], float(loc), float(w[dj[0]])))
-                    if np.ndim(scale) == 0 and not float(scale) > 0:
+                    if _scalar(scale) and not float(scale) > 0:
                         _viol(V, "A.proposal", "gibbs: proposal scale %r" % (scale,))
                     # the point that is evaluated (and stored if accepted) is the drawn value itself - passed through
                     # the limits set on that parameter, nothing else (no rounding, no truncation)
@@ -270,7 +282,7 @@ def refine_metropolis(V, stats, h, ev, w, kind="metropolis"):
         for e in reversed(ev[:k]):
             if e[1] == "post":
                 break
-            if e[1] == "rng" and e[2] == "normal" and np.ndim(e[4]) == 0:
+            if e[1] == "rng" and e[2] == "normal" and _scalar(e[4]):
                 draws.append(float(e[4]))
         draws.reverse()
         if len(draws) == h.d and np.all(np.isfinite(draws)):
@@ -473,7 +485,7 @@ def refine_ensemble(V, stats, h, ev, X, LX, X_after):
         for e in reversed(ev[:k]):
             if e[1] == "post":
                 break
-            if e[1] == "rng" and e[2] in ("random", "uniform") and np.ndim(e[4]) == 0:
+            if e[1] == "rng" and e[2] in ("random", "uniform") and _scalar(e[4]):
                 prev_uniforms.append(float(e[4]))
         u_all = _uniform_after(ev, k)
         cands = []
@@ -544,7 +556,7 @@ def refine_ensemble(V, stats, h, ev, X, LX, X_after):
                 if not acc:
                     good = False
                     why = "log ratio %+.6g > 0 but rejected" % la
-            elif u_all:
+            elif u_all and not getattr(rctx.get(), "block_uniforms", False):
                 q = math.exp(la) if la > -745 else 0.0
                 if not any(abs(u - q) <= 1e-12 + (1e-9 + (d - 1) * zerr / z) * q or acc == (u <= q) for u in u_all):
                     good = False
@@ -927,9 +939,13 @@ def stat_jobs(tier, seed):
     Cj = [dict(kind="gibbs", target=g2, T=1.0), dict(kind="gibbs", target=g1, T=2.0), dict(kind="metropolis", target=g2, T=1.0),
           dict(kind="pca", target=cg, T=1.0), dict(kind="hmc", target=g2, T=1.0, cfg=dict(steps=10)),
           dict(kind="ensemble", target=g2, T=1.0, cfg=dict(n_walkers=6)),
-          dict(kind="ensemble", target=g2, T=1.0, cfg=dict(n_walkers=6, max_attempts=1), tag="ensemble-single-attempt")]
+          dict(kind="ensemble", target=g2, T=1.0, cfg=dict(n_walkers=6, max_attempts=1), tag="ensemble-single-attempt"),
+          # thousands of accept/reject tests inside ONE advance() call (30 walkers x 400+ iterations)
+          dict(kind="ensemble", target=g2, T=1.0, cfg=dict(n_walkers=30), tag="ensemble-many-walkers", L=8 * L, R=max(12, R // 2))]
     for i, cj in enumerate(Cj):
-        cj.update(layer="C", seed=(seed * 1000033 + i) & 0x7FFFFFFF, R=R, L=L, burn=300)
+        cj.update(layer="C", seed=(seed * 1000033 + i) & 0x7FFFFFFF, burn=300)
+        cj.setdefault("R", R)
+        cj.setdefault("L", L)
         cj.setdefault("tag", cj["kind"])
         jobs.append(cj)
     return jobs
